@@ -142,7 +142,7 @@ func unmarshalList(dec *msgpack.Decoder, ety cty.Type, path cty.Path) (cty.Value
 		return cty.ListValEmpty(ety), nil
 	}
 
-	vals := make([]cty.Value, 0, length)
+	vals := make([]cty.Value, 0, preallocLen(length))
 	path = append(path, nil)
 	for i := 0; i < length; i++ {
 		path[len(path)-1] = cty.IndexStep{
@@ -176,7 +176,7 @@ func unmarshalSet(dec *msgpack.Decoder, ety cty.Type, path cty.Path) (cty.Value,
 		return cty.SetValEmpty(ety), nil
 	}
 
-	vals := make([]cty.Value, 0, length)
+	vals := make([]cty.Value, 0, preallocLen(length))
 	path = append(path, nil)
 	for i := 0; i < length; i++ {
 		path[len(path)-1] = cty.IndexStep{
@@ -210,7 +210,7 @@ func unmarshalMap(dec *msgpack.Decoder, ety cty.Type, path cty.Path) (cty.Value,
 		return cty.MapValEmpty(ety), nil
 	}
 
-	vals := make(map[string]cty.Value, length)
+	vals := make(map[string]cty.Value, preallocLen(length))
 	path = append(path, nil)
 	for i := 0; i < length; i++ {
 		key, err := dec.DecodeString()
@@ -251,7 +251,7 @@ func unmarshalTuple(dec *msgpack.Decoder, etys []cty.Type, path cty.Path) (cty.V
 		return cty.DynamicVal, path.NewErrorf("a tuple of length %d is required", len(etys))
 	}
 
-	vals := make([]cty.Value, 0, length)
+	vals := make([]cty.Value, 0, preallocLen(length))
 	path = append(path, nil)
 	for i := 0; i < length; i++ {
 		path[len(path)-1] = cty.IndexStep{
@@ -286,7 +286,7 @@ func unmarshalObject(dec *msgpack.Decoder, atys map[string]cty.Type, path cty.Pa
 			len(atys), length)
 	}
 
-	vals := make(map[string]cty.Value, length)
+	vals := make(map[string]cty.Value, preallocLen(length))
 	path = append(path, nil)
 	for i := 0; i < length; i++ {
 		key, err := dec.DecodeString()
@@ -339,4 +339,19 @@ func unmarshalDynamic(dec *msgpack.Decoder, path cty.Path) (cty.Value, error) {
 	}
 
 	return unmarshal(dec, ty, path)
+}
+
+// preallocLen limits how much memory we reserve on the strength of a length
+// prefix alone: the prefix comes from untrusted input and may claim billions of
+// elements in a few bytes. Larger collections still decode, growing as their
+// elements are actually read.
+func preallocLen(declared int) int {
+	const max = 1024
+	if declared < 0 {
+		return 0
+	}
+	if declared > max {
+		return max
+	}
+	return declared
 }
